@@ -780,8 +780,15 @@ class BlobStorage(BlobStorageMixin):
         # We need to override the base storage's abort instead of
         # providing an _abort method because methods found on the proxied
         # object aren't rebound to the proxy
+        #
+        # The storage ignores the call when it is made with a transaction
+        # other than the one being committed: then the blob files of the
+        # transaction in progress must stay too.
+        current = getattr(self.__storage, 'tpc_transaction', None)
+        ours = not arg or current is None or arg[0] is current()
         self.__storage.tpc_abort(*arg, **kw)
-        self._blob_tpc_abort()
+        if ours:
+            self._blob_tpc_abort()
 
     def _packUndoing(self, packtime, referencesf):
         # Walk over all existing revisions of all blob files and check
